@@ -384,6 +384,11 @@ int main(int argc, char** argv) {
     }
     for (auto f : flags) if (f) g_any_ws = true;
     if (g_alloc_mode == 2 && use_global_pooled_stack_allocator() != 0) vh::machinery_failure("global stack pool init failed");
+    // the per-vCPU pool gives stacks back to the heap once it holds more than its trim threshold (1 GiB by default,
+    // never reached here): a small threshold puts that branch of dealloc on the path of every few thread exits
+    uint64_t trim_thr = 0;
+    if (g_alloc_mode == 1) { vh::Rng rt(vh::mix(vh::args().xseed(), 911)); if (rt.chance(2, 3)) { trim_thr = rt.pick({2u, 4u, 8u, 32u}) * 64 * 1024; pooled_stack_trim_threshold(trim_thr); } }
+    vh::config("pooled_trim_threshold", trim_thr);
     if (set_photon_thread_stack_allocator(g_ra) != 0) vh::machinery_failure("cannot install recording stack allocator");
     using namespace photon::verif;
     g_hooks.tunable[T_SLEEPQ_WALK].store(1);
